@@ -30,6 +30,9 @@ META = {
     "technique": "Coq proof (per-character sweep by reflection + induction over the string) + "
                  "in-Coq correspondence + differential oracle against real compilers",
 }
+COQCHK_SKIP_REASON = ("coqchk re-evaluates the vm_compute casts of the twelve full-code-point sweep files "
+                      "without the VM: measured 15 min 32 s for ONE sweep file (74 s with coqc), i.e. 3-4 h "
+                      "for the cone of Props/C19; the theorems are checked by coqc (full .vo build) only")
 GEN = ["GenLiteralTables"]
 MODEL = ["Model/LitCore", "Gen/GenLiteralTables", "Model/Lit", "Model/LexCore", "Model/LexPython",
          "Model/LexJs", "Model/LexJava", "Model/LexCpp", "Model/LexCsharp", "Model/LexGo"]
@@ -278,14 +281,19 @@ def run_tool(tool: str, lits: List[str]):
 
 
 # features the lexer models deliberately do not cover (model None, front end accepts)
-PYTOL = r"\\N|^('''|\"\"\")|\r|^\s|\s$|['\"]\s*b?['\"].*['\"]|\\[4-7][0-7][0-7]"
+PYTOL = r"^[rRfFbBuU]{1,2}['\"]|\\N|^('''|\"\"\")|\r|^\s|\s$|['\"]\s*b?['\"].*['\"]|\\[4-7][0-7][0-7]"
 EDGE = r"^\s|\s$"
 TOLERATE = {
     0: PYTOL, 10: PYTOL, 1: PYTOL,
     2: EDGE + r"|^'", 3: EDGE, 4: EDGE + r"|\\u+005[cC]|\\u+000[aAdD]|\\u+0022",
-    5: EDGE + r"|\r|\x00|\?\?|\"\s*\"|\\U(?!000|0010)",
+    5: EDGE + r"|^[^L]|\r|\x00|\?\?|\"\s*\"|\\U(?!000|0010)",
     6: EDGE + r"|[^\x00-\x7f]|\\[uU]|\r|\x00|\?\?", 7: EDGE + r"|\r|\x00|\?\?|\\U(?!000|0010)",
 }
+
+# value level: lone surrogate, backslashes, then `u` or another lone surrogate
+JAVAC_CLASS_VALUE = re.compile("[\ud800-\udfff]\\\\+(u|[\ud800-\udfff])")
+# literal level: a Unicode escape, a backslash run, `u`
+JAVAC_CLASS_LITERAL = re.compile(r"\\u+[0-9a-fA-F]{4}\\+u")
 
 HAND_LITERALS = {
     0: ["'\\x41'", "'\\x4'", "'\\101'", "'\\1011'", "'\\18'", "'\\u00e9\\U0001f600'", "'\\ud800'",
@@ -339,7 +347,7 @@ def corpus() -> List[str]:
             "\ud83d\ude00", "\u0085", "\u2028", "\u2029", "${", "$${", "$", "$$", "`${a}`", "\\${", "$\\{",
             "\\u0041", "\\\\u0041", "\\", "\\\\", "a\\", "'", "\"", "'\"", "''\"", "{}", "{{", "}",
             "\U0001f600", "\xff", "\u0100", "\uffff", "\U00010000", "\U0010ffff", " a", "a ", "\ta",
-            "\x0b", "\x1b[0m", "\x1a", "??/", "%s", "é", "\x01\x02g", "\ufeff", ""]
+            "\x0b", "\x1b[0m", "\x1a", "??/", "%s", "é", "\x01\x02g", "\ufeff", "", "\ud800\\\udc00", "\udfff\\u0041", "\ud800x\\\udc00"]
 
 
 def streams(ctx: lib.Ctx) -> None:
@@ -353,9 +361,9 @@ def streams(ctx: lib.Ctx) -> None:
     all_pairs = [a + b for a in alpha for b in alpha]
     pairs = all_pairs if ctx.thorough else rng.sample(all_pairs, 450)
     pairs_tool = all_pairs if ctx.thorough else pairs[:250]
-    randoms = [G.random_string(rng) for _ in range(ctx.n(300, 20000))]
+    randoms = [G.random_string(rng) for _ in range(ctx.n(300, 4000))]
     base_inputs = corpus() + singles + pairs + randoms
-    tool_inputs = corpus() + singles + pairs_tool + randoms[: ctx.n(150, 5000)]
+    tool_inputs = corpus() + singles + pairs_tool + randoms[: ctx.n(150, 1000)]
     import time as _time
     t_last = [_time.time()]
     timing = ctx.coverage.setdefault("stage_seconds", {})
@@ -485,8 +493,11 @@ def streams(ctx: lib.Ctx) -> None:
                     note(m, s, lit, f"literal denotes {r[1][:12]} instead of the original value")
             else:
                 note(m, s, lit, f"the front end rejects the literal ({r[1]})")
-            if not (LANG[m][0] == 7 and "??" in lit):
-                lexval.append((LANG[m][0], lit, r[1] if r[0] == "ok" else None, False))
+            if LANG[m][0] == 7 and "??" in lit:
+                continue
+            if LANG[m][0] == 4 and JAVAC_CLASS_LITERAL.search(lit):
+                continue   # javac deviates from JLS 3.3 here (see docs); not a lexer-model question
+            lexval.append((LANG[m][0], lit, r[1] if r[0] == "ok" else None, False))
     # bytes
     bl = [(b, G.from_cps(r["okm"][0])) for b, r in zip(byte_inputs, bytes_res) if "okm" in r]
     for (b, lit), r in zip(bl, run_tool("python_bytes", [lit for _, lit in bl])):
@@ -515,7 +526,7 @@ def streams(ctx: lib.Ctx) -> None:
         by_lexer.setdefault(k, []).append(lit)
     for k, lits in by_lexer.items():
         if k in extra:
-            for _ in range(ctx.n(60 if k in (0, 1, 2, 3) else 16, 2000)):
+            for _ in range(ctx.n(60, 500) if k in (0, 1, 2, 3) else ctx.n(16, 80)):
                 extra[k].append(mutate_literal(rng, rng.choice(lits)))
     tool_of = {0: "python", 1: "python_bytes", 2: "node", 3: "node", 4: "java", 5: "gxx_wide",
                6: "gxx_narrow", 7: "gxx_wchar"}
@@ -525,6 +536,8 @@ def streams(ctx: lib.Ctx) -> None:
         for lit, r in zip(lits, res):
             tol = bool(re.search(TOLERATE.get(k, r"$^"), lit))
             if k == 7 and "??" in lit:
+                continue
+            if k == 4 and JAVAC_CLASS_LITERAL.search(lit):
                 continue
             if k == 7 and not re.fullmatch(
                     r"L'(\\([abfnrtv'\"?\\]|[0-7]{1,3}|x[0-9a-fA-F]+|u[0-9a-fA-F]{4}|U[0-9a-fA-F]{8})|[^\\'\n])'"
@@ -547,13 +560,18 @@ def streams(ctx: lib.Ctx) -> None:
     stage('lexer-validation')
     # ------------------------------------------------------------------ report property failures (shrunk)
     order = ['cpp_w', 'go', 'cs', 'py_n', 'java', 'ts_t', 'cpp_s', 'ts_q', 'cpp_c']
-    for mode, items in sorted(failures.items(), key=lambda kv: (order.index(kv[0]) if kv[0] in order else 99, kv[0])):
+    # known causes are reported under one key per CLASS of inputs, and separately from the
+    # other failures of the same mode (so that a new defect is not hidden behind a known one)
+    grouped: Dict[Tuple[str, str], List[Tuple[str, str, str]]] = {}
+    for mode, items in failures.items():
+        for it in items:
+            grouped.setdefault((mode, known_class(mode, it[0])), []).append(it)
+    for (mode, cls), items in sorted(grouped.items(), key=lambda kv: (
+            order.index(kv[0][0]) if kv[0][0] in order else 99, kv[0])):
         s, lit, why = min(items, key=lambda it: (len(it[0]), it[0]))
-        s2, lit2, why2 = shrink(mode, s, lit, why)
-        key = f"{mode}:{'-'.join('%x' % ord(c) for c in s2)}"
-        if mode in ("cpp_w", "cpp_s") and len(s2) == 3 and s2[:2] == "??" and s2[2] in "=/'()!<>-":
-            # one known cause, whatever trigraph the run happened to hit first
-            key = f"{mode}:trigraph"
+        s2, lit2, why2 = shrink(mode, s, lit, why, cls)
+        cls2 = known_class(mode, s2)
+        key = f"{mode}:{cls2}" if cls2 else f"{mode}:{'-'.join('%x' % ord(c) for c in s2)}"
         ctx.impl_failure(
             key, f"{mode}: {why2}", {"mode": mode, "string_code_points": G.cps(s2), "string_repr": repr(s2)},
             {"literal": lit2, "failing_inputs_this_run": len(items)}, "property-oracle",
@@ -590,7 +608,21 @@ def check_one(mode: str, s: str) -> Optional[Tuple[Optional[str], str]]:
     return (lit, f"the front end rejects the literal ({t[1]})") if rep or True else None
 
 
-def shrink(mode: str, s: str, lit, why):
+TRIGRAPH = re.compile(r"\?\?[=/'()!<>-]")
+
+
+def known_class(mode: str, s: str) -> str:
+    """'' or the name of the known cause that explains a failure on s."""
+    if mode == "java" and JAVAC_CLASS_VALUE.search(s):
+        # javac (17) rejects, against JLS 3.3, a backslash run followed by `u` right after a
+        # Unicode escape; only lone surrogates are emitted as Unicode escapes
+        return "unicode-escape-then-backslash-u"
+    if mode in ("cpp_w", "cpp_s") and TRIGRAPH.search(s):
+        return "trigraph"
+    return ""
+
+
+def shrink(mode: str, s: str, lit, why, cls: str = ""):
     if mode not in LANG:
         return s, lit, why
     cur = (s, lit, why)
@@ -601,6 +633,8 @@ def shrink(mode: str, s: str, lit, why):
         for i in range(len(cur[0])):
             cand = cur[0][:i] + cur[0][i + 1:]
             budget -= 1
+            if known_class(mode, cand) != cls:
+                continue
             r = check_one(mode, cand)
             if r is not None:
                 cur = (cand, r[0], r[1])
